@@ -51,7 +51,9 @@ Supply(m) ==
 PickExtra ==
   /\ ph = 1 /\ ph' = 2
   /\ \E oel \in BOOLEAN, ogas \in BOOLEAN, nep \in BOOLEAN, aux \in BOOLEAN, bcal \in BOOLEAN, dm \in {"consistent", "absent", "zero"},
-        chp \in {"no", "bio", "gas", "mixed"}, lsc \in BOOLEAN, oamb \in BOOLEAN, zel \in BOOLEAN, b2 \in {"no", "out", "noout"} :
+        chp \in {"no", "bio", "gas", "mixed"}, lsc \in BOOLEAN, oamb \in BOOLEAN, zel \in BOOLEAN, b2 \in {"no", "out", "noout"}, odm \in BOOLEAN :
+       \* the building also declares its heating and cooling demands, BEFORE the DHW demand (they are other services' business)
+       /\ (odm => dm = "consistent" /\ ~zel /\ ~oamb /\ b2 = "no" /\ chp \in {"no", "gas"})
        \* a SECOND boiler of the same kind of biomass for DHW (another system id), with or without declared output
        /\ (b2 # "no" => mix.bio # "no" /\ ~bcal /\ chp = "no" /\ ~zel /\ ~oamb /\ ~lsc /\ ~aux)
        \* an idle DHW electricity line (all zeros) next to a biomass supply: it is no DHW supply at all
@@ -65,7 +67,7 @@ PickExtra ==
        /\ (chp = "mixed" => mix.bio = "no" /\ ~mix.dbio /\ ~mix.red)
        \* the biomass boilers may also heat (another service of the same system, with its own declared output)
        /\ (bcal => mix.bio = "out" \/ mix.dbio)
-       /\ extra' = [oel |-> oel, ogas |-> ogas, nep |-> nep, aux |-> aux, bcal |-> bcal, chp |-> chp, lsc |-> lsc, oamb |-> oamb, zel |-> zel, b2 |-> b2]
+       /\ extra' = [oel |-> oel, ogas |-> ogas, nep |-> nep, aux |-> aux, bcal |-> bcal, chp |-> chp, lsc |-> lsc, oamb |-> oamb, zel |-> zel, b2 |-> b2, odm |-> odm]
        /\ demand' = dm
        /\ comps' = (IF lsc THEN [i \in 1..Len(Supply(mix)) |-> IF Supply(mix)[i].kind = "USED" /\ Supply(mix)[i].cr = "EAMBIENTE"
                                                                 THEN [Supply(mix)[i] EXCEPT !.cm = LowScopTag] ELSE Supply(mix)[i]]
@@ -84,6 +86,7 @@ PickExtra ==
             \o (IF chp = "gas" THEN <<Used(10, "GASNATURAL", "COGEN", Const(80))>> ELSE <<>>)
             \o (IF chp = "mixed" THEN <<Used(10, "BIOMASA", "COGEN", Const(50)), Used(10, "GASNATURAL", "COGEN", Const(40))>> ELSE <<>>)
             \o (IF aux THEN <<Aux(IF mix.el THEN 1 ELSE 2, "ACS", Const(10))>> ELSE <<>>)
+            \o (IF odm THEN <<Need("CAL", Const(70)), Need("REF", Const(-30))>> ELSE <<>>)
             \o (IF dm = "absent" THEN <<>> ELSE <<Need("ACS", Const(IF dm = "zero" THEN 0 ELSE Delivered10(mix) + (IF b2 # "no" THEN 40 ELSE 0)))>>)
   /\ UNCHANGED <<n, mix>>
 Next == PickMix \/ PickExtra
@@ -127,5 +130,5 @@ ClosedFormPv ==
      A(comps, Zero).v = RDiv(R(ISumSet(LAMBDA t : IMin(40, IF t = 1 THEN 30 ELSE 100), 1..n)), R(n * 40))
 
 Emit == Done => PrintT(<<"CASE", ToJson([src |-> [comps |-> comps], demand |-> demand,
-                                          rare |-> (extra.zel \/ extra.oamb \/ extra.chp = "mixed" \/ extra.b2 # "no")])>>)
+                                          rare |-> (extra.zel \/ extra.oamb \/ extra.chp = "mixed" \/ extra.b2 # "no" \/ extra.odm)])>>)
 =============================================================================
